@@ -145,6 +145,21 @@ class LedgerBase:
     def drop_effect(self, kind):
         """effect of dropping an owning tracked local of this kind (None: no effect on the books here)"""
         return None
+    def _variant_holds(self, adt, lab):
+        """does variant `lab` of a maybe-value hold the value?  Option / Result / ControlFlow by name; a two-state enum of the analysed
+        crates (`enum Slot<T> { Held(T), Vacant }`) by its shape: the variant with a payload holds, the unit variant does not"""
+        if lab in ('Some', 'Ok', 'Continue'):
+            return True
+        if lab in ('None', 'Err', 'Break'):
+            return False
+        for c_ in self.prog.crates.values():
+            a_ = c_.adt(adt) if adt else None
+            if a_ is not None:
+                for v_ in a_.get('variants', []):
+                    if v_.get('name') == lab:
+                        return bool(v_.get('fields'))
+        return None
+
     def pend_call(self, b, an, bc, blk, t):
         """effect id when the call yields a *maybe* resource (Option / Result): the effect is applied where the value is
         resolved to present (Some / Ok / Continue arm, unwrap) and not applied on the absent arm"""
@@ -594,12 +609,13 @@ class LedgerBase:
                             ini2.discard(on['l'])
                         if on is not None and not on['pr']:
                             for f_ in [f_ for f_ in fl2 if isinstance(f_, tuple) and f_[0] == 'pend' and f_[1] == on['l']]:
-                                if lab in ('Some', 'Ok', 'Continue'):
+                                full = self._variant_holds(t.j.get('adt'), lab)
+                                if full is True:
                                     fl2.discard(f_)
                                     pv, pn = self.pend_effect(f_[2])
                                     v2 = vadd(v2, pv); self._ev(b)
                                     note2 = (note2 + ', ' if note2 else '') + pn
-                                elif lab in ('None', 'Err', 'Break'):
+                                elif full is False:
                                     fl2.discard(f_)
                         dv, nt, addf = self.switch_event(b, an, bc, blk, t, lab, on, tr, fl2)
                         if dv is not None:
@@ -679,7 +695,7 @@ class Ledger(LedgerBase):
         self.helper_paths = self.ret_helper | self.take_helper
 
     def is_local(self, b):
-        return b.path.startswith('deadpool::managed') or b.path.startswith('<deadpool::managed')
+        return b.path.startswith('deadpool::managed') or b.path.startswith('<deadpool::managed') or (' as deadpool::managed::' in b.path.split('>::')[0] and str(b.file).startswith('src/'))
     is_managed = is_local
 
     def kind_of_ty(self, ty):
@@ -835,7 +851,13 @@ class UnmanagedLedger(LedgerBase):
             restores = [blk for blk in self.guard_drop.blocks if blk.term.kind == 'call' and not blk.cleanup and any(n_.endswith('::fetch_add') for n_ in blk.term.callee_names())]
             self.guard_skips = set(armed_flag_skips(prog, r, self.guard_drop, restores))
         oadt = r.crate.adt(r.OBJECT)
-        self.obj_fields = {f['name'] for v in oadt['variants'] for f in v['fields'] if f['ty'].startswith('std::option::Option<')}
+        # the field of Object that holds the pooled value: an Option<T>, or a two-state enum of this crate over T
+        def _maybe_T(ty):
+            if ty.startswith('std::option::Option<'):
+                return True
+            a_ = r.crate.adt(adt_of(ty) or '')
+            return a_ is not None and len(a_.get('variants', [])) == 2 and sorted(bool(v_['fields']) for v_ in a_['variants']) == [False, True]
+        self.obj_fields = {f['name'] for v in oadt['variants'] for f in v['fields'] if _maybe_T(f['ty'])}
 
     def is_local(self, b):
         return b.path.startswith('deadpool::unmanaged') or b.path.startswith('<deadpool::unmanaged')
@@ -879,7 +901,8 @@ class UnmanagedLedger(LedgerBase):
                 bc.closed_dest.add(t.dest.local)
             if 'tokio::sync::Semaphore::is_closed' in names:
                 bc.closed_dest.add(t.dest.local)
-            if 'std::option::Option::take' in names and t.args and any(s[0] == 'field' and s[1].rsplit('.', 1)[0] == r.OBJECT and s[1].rsplit('.', 1)[1] in self.obj_fields for s in sources(an, t.args[0])):
+            # the value leaves the Object: `obj.take()` on an Option field, `mem::replace(&mut obj, Vacant)` / `mem::take` on a two-state enum
+            if names & set(('std::option::Option::take', 'std::mem::replace', 'std::mem::take')) and t.args and any(s[0] == 'field' and s[1].rsplit('.', 1)[0] == r.OBJECT and s[1].rsplit('.', 1)[1] in self.obj_fields for s in sources(an, t.args[0])):
                 bc.otake.add(blk.idx)
         return bc
 
@@ -896,7 +919,7 @@ class UnmanagedLedger(LedgerBase):
     def call_disowns(self, b, an, bc, t, tr):
         # `this.obj.take()`: the Object local no longer owns an object (its Drop will find None)
         out = []
-        if t.kind == 'call' and 'std::option::Option::take' in t.callee_names() and t.args:
+        if t.kind == 'call' and t.callee_names() & set(('std::option::Option::take', 'std::mem::replace', 'std::mem::take')) and t.args:
             for l, k in tr.items():
                 if k == 'object' and any(s[0] == 'field' and s[1].rsplit('.', 1)[0] == self.r.OBJECT for s in sources(an, t.args[0])):
                     o = an.origin(t.args[0])
